@@ -1,14 +1,21 @@
 """C18 - logic blocks count, accrue and sequence exactly as specified.
 
-Implementation side: real Counter / Accrual / Sequence devices on a real machine (machine-wide, or owned by a non-game
-mode that is started and stopped), driven by their configured events on the 1/8 s grid.
-Model side: MpfVerif.Model.LogicBlock through the compiled driver, one op per line.
+Implementation side: real Counter / Accrual / Sequence devices on a real machine (machine-wide, owned by a non-game
+mode that is started and stopped, or - persist_state - owned by a game mode in a real 1-3 player game), driven by their
+configured events (immediate and {event: delay} forms) on the 1/8 s grid; starting_count / count_complete_value may be
+templates reading a machine / player variable that the case changes while it runs.
+Model side: MpfVerif.Model.LogicBlock (`xstep`) through the compiled driver, one op per line.  Which of several delays
+due at the same instant runs first is NOT guessed: the harness logs the order the real loop chose (wrapping
+DelayManager._process_delay_callback in this process) and replays it to the model and the reference as explicit
+fireW / fireT / fireD ops; both refuse a callback that is not due and refuse to move the clock past one that is.
 Oracle (model independent): RefBlock below - the property statement as an executable reference (accepted hit = enabled
 and outside the hit window; one hit event per accepted hit; completion once, at the step reaching the goal, then
-reset / disable as configured; window and timeout as absolute deadlines) - plus the value ledger recomputed from the
-events the real device posted.
+reset / disable as configured; window, timeout and delayed control calls as absolute deadlines; templates read at
+reset / mode start and at every hit; one stored state per player) - plus the value ledger recomputed from the events
+the real device posted.
 """
 import itertools
+import random
 
 from harness.common import leanproc
 from harness.common.shrink import ddmin
@@ -19,35 +26,57 @@ LEAN_MODULES = ["MpfVerif.Props.C18"]
 PROPS_FILE = "MpfVerif/Props/C18.lean"
 GEN = []
 MANIFEST = {
-  "text": "Proof on a Lean model of Counter / Accrual / Sequence (enabled, completed, value, hit-window deadline, timeout deadline; full configuration: direction, interval, start and completion value, reset/disable on complete, hit window, timeout; ops count, step hit, enable, disable, reset, restart, add, subtract, jump, clock tick, mode stop/start), for ALL configurations and ALL op sequences by induction: the counter value equals the ledger start + interval*direction*(accepted hits since the last reset) (+ explicit add/subtract/jump), a hit is accepted and posts exactly one hit event iff the block is enabled and outside its window, the completion event is posted exactly once per completion and exactly at the step that reaches the goal while not completed, after it the block is reset and/or disabled as configured, an accrual completes on any order of its steps and a sequence only on the strict order, and a hit window always reopens at its deadline. The model is tied to mpf/devices/logic_blocks.py by a correspondence run on real devices (machine-wide and inside a non-game mode) on the 1/8 s grid, comparing value/enabled/completed and every posted logicblock_*_hit/_complete/_updated/timeout event with its arguments after every op.",
-  "note": "Trusted: Lean kernel + {propext, Classical.choice, Quot.sound}; the hand-written model Model/LogicBlock.lean (validated only by the differential run); DelayManager/clock (C13), event dispatch order (C01) and the mode lifecycle (C07) are used, not verified here. persist_state (player-stored state) and delayed control events (event|ms) are outside the model. Hits are not guarded by `completed` in the code (a completed, still enabled counter keeps counting): the statement follows the code and the property text (enabled and outside the window).",
-  "technique": "Lean 4 theorems (case analysis per step + induction over the op list, trace ledger) on a hand model + differential correspondence with real devices and an independent Python reference oracle",
+  "text": "Proof on a Lean model of Counter / Accrual / Sequence in its environment (block: enabled, completed, value, hit-window deadline, timeout deadline; environment: current values of the starting_count / count_complete_value templates, pending delayed control calls, one stored state per player for persist_state; full configuration: direction, interval, start and completion value, reset/disable on complete, hit window, timeout; ops count, step hit, advance_random with its random choice, enable, disable, reset, restart, add, subtract, jump, clock tick, each due delay callback as its own op (window end, timeout, delayed control call), delayed control event posted, template variable changed, mode stop / start for player p), for ALL configurations and ALL op sequences - hence all orders of same-instant callbacks - by induction: the counter value equals the ledger start-as-read-at-the-last-reset + interval*direction*(accepted hits since) (+ explicit add/subtract/jump; after a persist_state restore: the restored value), a hit is accepted and posts exactly one hit event iff the block is enabled and outside its window - whether it arrives directly or as a delayed call -, the completion event is posted exactly once per completion and exactly at the step that reaches the goal as the template evaluates then, after it the block is reset and/or disabled as configured, an accrual completes on any order of its steps (advance_random = a hit on an open step) and a sequence only on the strict order, a hit window always reopens at its deadline and the clock cannot pass a due delay, a delayed control call runs only at its due instant, at most once, and not at all after its mode stopped, and persist_state gives the player exactly the state stored when his mode last stopped while no op touches another player's stored state. The model is tied to mpf/devices/logic_blocks.py (+ the control-event plumbing of device_manager.py / mode.py) by a correspondence run on real devices (machine-wide, inside a non-game mode, inside a game mode of a real multi-player game) on the 1/8 s grid, comparing value/enabled/completed, every player's stored state and every posted logicblock_*_hit/_complete/_updated/timeout event with its arguments after every op.",
+  "note": "Trusted: Lean kernel + {propext, Classical.choice, Quot.sound}; the hand-written model Model/LogicBlock.lean (validated only by the differential run); DelayManager/clock (C13), event dispatch order (C01), the mode lifecycle (C07), the game/player rotation (C06/C11) and template evaluation (C16) are used, not verified here. Same-instant callback order and the random choice of advance_random are taken from the implementation and validated (not-due / not-open choices are refused by model and reference). count_interval is a plain int in config_spec (not a template). The persist_state stream runs without hit window / timeout / delayed events (game flow is not on the grid); a restored block does not re-arm its timeout (follows the code). Hits are not guarded by `completed` in the code (a completed, still enabled counter keeps counting): the statement follows the code and the property text (enabled and outside the window). State machine devices (state_machine.py) are not covered.",
+  "technique": "Lean 4 theorems (case analysis per step + induction over the op list, trace ledger, scheduler as input) on a hand model + differential correspondence with real devices and an independent Python reference oracle",
   "translated": False,
 }
 RULE = ("a case = one block configuration (kind, start, interval, direction, goal, reset/disable on complete, window, "
-        "timeout in 1/8 s ticks, steps, machine-wide or mode-owned) + 6-28 ops (count / step hit / enable / disable / "
-        "reset / restart / add / subtract / jump / advance n ticks / mode stop / mode start) biased to the window edge, "
-        "the timeout instant and goals 1-4 hits away; non-trivial = at least one hit was rejected (disabled or inside "
-        "the window), a completion happened, or a timeout fired; distinct = canonical JSON of (config, ops); plus an "
-        "oracle-only stream probing both deadlines 1 ms early and 1 ms late")
+        "timeout in 1/8 s ticks, steps with shared and duplicated step events, delays of the {event: delay} control "
+        "events, template-valued start / goal, machine-wide / mode-owned / game-mode-owned with persist_state and 1-3 "
+        "players) + 6-28 ops (count / step hit / shared event / advance_random / enable / disable / reset / restart / "
+        "add / subtract / jump / the delayed variant of a control event / template variable set / advance n ticks / "
+        "mode stop / mode start / ball drain to the next player) biased to the window edge, the timeout instant, delayed "
+        "calls landing on both, goals 1-4 hits away and counting down through zero; non-trivial = at least one hit was "
+        "rejected (disabled or inside the window), a completion happened, a timeout fired, a delayed call ran or was "
+        "dropped, or a stored state was restored; distinct = canonical JSON of (config, ops); plus an oracle-only stream "
+        "probing both deadlines 1 ms early and 1 ms late")
 TRUSTED = [
     "Model/LogicBlock.lean is hand-written; tied to mpf/devices/logic_blocks.py by correspondence on every run",
     "modelled, not verified: DelayManager + clock (deadline = now + ms/1000 on the dyadic grid), event queue order, "
-    "mode start/stop (handlers removed, device_removed_from_mode called), template_int evaluation of constants",
+    "mode start/stop (handlers removed, device_removed_from_mode called, mode delays cleared), game/player rotation, "
+    "template evaluation of `machine.x` / `current_player.x` / constants",
+    "the order of callbacks due at the same instant and random.shuffle are inputs taken from the implementation",
 ]
-ASSUMPTIONS = ["persist_state: false; control events without a delay; constant (non-placeholder) starting_count / "
-               "count_complete_value / control values; times on the 1/8 s grid",
+ASSUMPTIONS = ["integer-valued template variables; control values (add/subtract/jump) constant; times on the 1/8 s grid",
+               "persist_state cases: no hit window, timeout or delayed control events; one game, no extra balls",
                "machine-wide blocks with a timeout are configured with enable_events (boot is not on the grid)"]
 
 TICK = 0.125
 NAME = "blk"
+ACTS = ("count", "enable", "disable", "reset", "restart", "advr")
+VAR_START, VAR_GOAL = "c18_st", "c18_goal"
+
+
+def acts_of(cfg):
+    """the control events of this block that exist (immediate form `blk_<act>`, delayed form `blk_<act>_d`)"""
+    out = ["disable", "reset", "restart"]
+    if cfg["where"] != "machine" or not cfg["start_enabled"]:
+        out.append("enable")
+    if cfg["kind"] == "counter":
+        out.append("count")
+    if cfg["kind"] == "accrual":
+        out.append("advr")
+    return out
 
 
 # ---------------------------------------------------------------------------------------------------------------------
 # independent reference (the property statement, executable)
 # ---------------------------------------------------------------------------------------------------------------------
 class RefBlock:
-    """Deadline-based reference: processes time by jumping from deadline to deadline (not tick by tick)."""
+    """Deadline-based reference.  Time only moves in `advance`, instant by instant; at every instant the callbacks
+    that are due run in the order the implementation reported (`sched`), each only if it is really due; what is due and
+    was not reported is run afterwards and flagged."""
 
     def __init__(self, cfg):
         self.c = cfg
@@ -55,6 +84,8 @@ class RefBlock:
         self.n = cfg["steps"]
         iv = cfg["interval"]
         self.delta = -abs(iv) if cfg["down"] else abs(iv)
+        self.start = cfg["start"]            # what the starting_count template evaluates to now
+        self.goal = cfg["goal"]              # what the count_complete_value template evaluates to now
         self.now = 0
         self.loaded = True
         self.enabled = cfg["start_enabled"]
@@ -62,15 +93,20 @@ class RefBlock:
         self.value = self.fresh()
         self.window_end = None
         self.timeout_at = None
+        self.pending = []                    # delayed control calls [due, act]
+        self.cur = 0
+        self.store = {}                      # player -> (enabled, completed, value)
+        self.flags = []
         self.ev = []
         self.kind = k
 
     def fresh(self):
         k = self.c["kind"]
-        return self.c["start"] if k == "counter" else ([False] * self.c["steps"] if k == "accrual" else 0)
+        return self.start if k == "counter" else ([False] * self.c["steps"] if k == "accrual" else 0)
 
-    def shown(self):
-        return "".join("1" if b else "0" for b in self.value) if self.kind == "accrual" else str(self.value)
+    def shown(self, v=None):
+        v = self.value if v is None else v
+        return "".join("1" if b else "0" for b in v) if self.kind == "accrual" else str(v)
 
     def post_updated(self):
         self.ev.append("U:%s:%d" % (self.shown(), 1 if self.enabled else 0))
@@ -96,7 +132,7 @@ class RefBlock:
         self.timeout_at = None
 
     def reached(self):
-        g = self.c["goal"]
+        g = self.goal
         if self.kind == "counter":
             if g is None:
                 return False
@@ -116,93 +152,181 @@ class RefBlock:
         if self.c["disable_on_complete"]:
             self.do_disable()
 
-    def op(self, op):
+    def do_count(self):
+        accepted = self.enabled and self.window_end is None
+        if accepted:
+            self.value += self.delta
+            self.post_updated()
+            g = self.goal
+            if g is None:
+                self.ev.append("H:%d" % self.value)
+            else:
+                done = (self.start - self.value) if self.c["down"] else (self.value - self.start)
+                left = (self.value - g) if self.c["down"] else (g - self.value)
+                self.ev.append("H:%d:%d:%d" % (self.value, done, left))
+            self.maybe_complete()
+            if self.c["window"]:
+                self.window_end = self.now + self.c["window"]
+        return accepted
+
+    def do_hit(self, k):
+        if not self.enabled:
+            return
+        if self.kind == "accrual":
+            if not self.value[k]:
+                self.value = self.value[:k] + [True] + self.value[k + 1:]
+                self.post_updated()
+                self.ev.append("S:%d" % k)
+            self.maybe_complete()
+        elif k == self.value:
+            self.value += 1
+            self.post_updated()
+            self.ev.append("S:%d" % self.value)
+            self.maybe_complete()
+
+    def do_advr(self, choice):
+        """advance_random: exactly one open step is hit - which one is the implementation's choice, validated here"""
+        open_steps = [i for i, b in enumerate(self.value) if not b] if self.enabled else []
+        if choice is None:
+            if open_steps:
+                self.flags.append("advr-did-nothing")
+            return
+        if choice not in open_steps:
+            self.flags.append("advr-bad-choice")
+            return
+        self.do_hit(choice)
+
+    def act(self, a, choice=None):
+        if a == "count":
+            self.do_count()
+        elif a == "enable":
+            self.do_enable()
+        elif a == "disable":
+            self.do_disable()
+        elif a == "reset":
+            self.do_reset()
+        elif a == "restart":
+            self.do_reset()
+            self.do_enable()
+        elif a == "advr":
+            self.do_advr(choice)
+        else:
+            raise InfraError("unknown act %r" % (a,))
+
+    def snapshot(self):
+        return (self.enabled, self.completed, self.value)
+
+    def do_unload(self):
+        if self.c.get("persist"):
+            self.store[self.cur] = self.snapshot()
+        self.loaded = False
+        self.window_end = self.timeout_at = None
+        self.pending = []            # the delayed calls of a mode-owned block live in the mode's delay manager
+
+    def do_load(self, p):
+        self.loaded = True
+        self.cur = p
+        self.window_end = self.timeout_at = None
+        if self.c.get("persist") and p in self.store:
+            self.enabled, self.completed, self.value = self.store[p]
+            self.post_updated()
+            return
+        self.enabled = False
+        self.completed = False
+        self.value = self.fresh()
+        if self.c["start_enabled"]:
+            self.do_enable()
+        self.post_updated()
+
+    def op(self, op, sched=None, choice=None):
         self.ev = []
+        self.flags = []
         name = op[0]
         if name == "adv":
-            self.advance(op[1])
+            self.advance(op[1], sched or [])
+        elif name == "setstart":
+            self.start = op[1]
+        elif name == "setgoal":
+            self.goal = op[1]
         elif not self.loaded:
             if name == "load":
-                self.loaded = True
-                self.enabled = False
-                self.completed = False
-                self.value = self.fresh()
-                self.window_end = self.timeout_at = None
-                if self.c["start_enabled"]:
-                    self.do_enable()
-                self.post_updated()
-        elif name == "count":
-            accepted = self.enabled and self.window_end is None
-            if accepted:
-                self.value += self.delta
-                self.post_updated()
-                g = self.c["goal"]
-                if g is None:
-                    self.ev.append("H:%d" % self.value)
-                else:
-                    done = (self.c["start"] - self.value) if self.c["down"] else (self.value - self.c["start"])
-                    left = (self.value - g) if self.c["down"] else (g - self.value)
-                    self.ev.append("H:%d:%d:%d" % (self.value, done, left))
-                self.maybe_complete()
-                if self.c["window"]:
-                    self.window_end = self.now + self.c["window"]
+                self.do_load(self.cur)
+            elif name == "startmode":
+                self.do_load(op[1])
+        elif name in ("count", "enable", "disable", "reset", "restart"):
+            self.act(name)
+        elif name == "advr":
+            self.act("advr", choice)
+        elif name == "dpost":
+            self.pending.append([self.now + self.c["delays"][op[1]], op[1]])
         elif name == "hit":
-            k = op[1]
-            if self.enabled:
-                if self.kind == "accrual":
-                    if not self.value[k]:
-                        self.value = self.value[:k] + [True] + self.value[k + 1:]
-                        self.post_updated()
-                        self.ev.append("S:%d" % k)
-                    self.maybe_complete()
-                elif k == self.value:
-                    self.value += 1
-                    self.post_updated()
-                    self.ev.append("S:%d" % self.value)
-                    self.maybe_complete()
-        elif name == "enable":
-            self.do_enable()
-        elif name == "disable":
-            self.do_disable()
-        elif name == "reset":
-            self.do_reset()
-        elif name == "restart":
-            self.do_reset()
-            self.do_enable()
+            self.do_hit(op[1])
         elif name in ("add", "sub", "set"):
             self.value = op[1] if name == "set" else (self.value + op[1] if name == "add" else self.value - op[1])
             self.post_updated()
             self.maybe_complete()
-        elif name == "unload":
-            self.loaded = False
-            self.window_end = self.timeout_at = None
-        elif name == "load":
+        elif name in ("unload", "stopmode"):
+            self.do_unload()
+        elif name in ("load", "startmode"):
             pass
         else:
             raise InfraError("unknown op %r" % (op,))
         return self.line()
 
-    def advance(self, n):
-        end = self.now + n
-        while True:
-            due = [d for d in (self.window_end, self.timeout_at) if d is not None and d <= end]
-            if not due:
-                break
-            t = min(due)
-            self.now = t
-            if self.window_end == t:
-                self.window_end = None
-            if self.timeout_at == t:
-                self.timeout_at = None
-                self.ev.append("T")
-                self.do_reset()
-        self.now = end
+    def due(self, t):
+        d = []
+        if self.window_end == t:
+            d.append("W")
+        if self.timeout_at == t:
+            d.append("T")
+        return d + ["D:" + a for due, a in self.pending if due == t]
+
+    def fire(self, kind, choice=None):
+        if kind == "W":
+            self.window_end = None
+        elif kind == "T":
+            self.timeout_at = None
+            self.ev.append("T")
+            self.do_reset()
+        else:
+            a = kind[2:]
+            i = [j for j, (due, b) in enumerate(self.pending) if due == self.now and b == a][0]
+            del self.pending[i]
+            self.act(a, choice)
+
+    def advance(self, n, sched):
+        """sched = [(offset 1..n, kind, choice)] in the order the implementation ran its delay callbacks"""
+        for j in range(1, n + 1):
+            self.now += 1
+            for off, kind, choice in sched:
+                if off != j:
+                    continue
+                if kind in self.due(self.now):
+                    self.fire(kind, choice)
+                else:
+                    self.flags.append("ran-not-due:" + kind)
+            for kind in self.due(self.now):
+                self.flags.append("due-not-run:" + kind)
+                self.fire(kind, None)
+        for off, kind, _ in sched:
+            if not 1 <= off <= n:
+                self.flags.append("ran-off-grid:" + kind)
+
+    def stored(self):
+        if not self.c.get("persist"):
+            return ""
+        out = []
+        for p in range(4):
+            st = self.snapshot() if (self.loaded and p == self.cur) else self.store.get(p)
+            out.append("-" if st is None else "%s,%d,%d" % (self.shown(st[2]), 1 if st[0] else 0, 1 if st[1] else 0))
+        return " s=" + "/".join(out)
 
     def line(self):
+        fl = "".join(" !" + f for f in self.flags)
         if not self.loaded:
-            return "unloaded |"
-        return "v=%s e=%d c=%d |%s" % (self.shown(), 1 if self.enabled else 0, 1 if self.completed else 0,
-                                       "".join(" " + e for e in self.ev))
+            return "unloaded%s |%s" % (self.stored(), fl)
+        return "v=%s e=%d c=%d%s |%s%s" % (self.shown(), 1 if self.enabled else 0, 1 if self.completed else 0,
+                                          self.stored(), "".join(" " + e for e in self.ev), fl)
 
 
 # ---------------------------------------------------------------------------------------------------------------------
@@ -212,23 +336,42 @@ def ms(ticks):
     return "%dms" % (ticks * 125)
 
 
+def step_events(cfg, i):
+    evs = ["%s_s%d" % (NAME, i)]
+    if i in cfg.get("dups", []):
+        evs.append("%s_s%d" % (NAME, i))                    # the same event twice in one step
+    for j, grp in enumerate(cfg.get("shared", [])):
+        if i in grp:
+            evs.append("%s_sh%d" % (NAME, j))
+    return evs
+
+
 def block_yaml(cfg):
     k = cfg["kind"]
     L = ["%s:" % {"counter": "counters", "accrual": "accruals", "sequence": "sequences"}[k], "  %s:" % NAME]
-    if not cfg["start_enabled"] or cfg["where"] == "mode":
-        L.append("    enable_events: %s_enable" % NAME)
-    if cfg["where"] == "mode":
+    acts = acts_of(cfg)
+    delays = cfg.get("delays", {})
+    for act in acts:
+        key = {"count": "count_events", "advr": "advance_random_events"}.get(act, act + "_events")
+        L.append("    %s:" % key)
+        L.append("      %s_%s: 0" % (NAME, act))
+        if act in delays:
+            L.append("      %s_%s_d: %s" % (NAME, act, ms(delays[act])))
+    if cfg["where"] != "machine":
         L.append("    start_enabled: %s" % ("true" if cfg["start_enabled"] else "false"))
-    L += ["    disable_events: %s_disable" % NAME, "    reset_events: %s_reset" % NAME,
-          "    restart_events: %s_restart" % NAME,
-          "    reset_on_complete: %s" % ("true" if cfg["reset_on_complete"] else "false"),
+    L += ["    reset_on_complete: %s" % ("true" if cfg["reset_on_complete"] else "false"),
           "    disable_on_complete: %s" % ("true" if cfg["disable_on_complete"] else "false")]
+    if cfg.get("persist"):
+        L.append("    persist_state: true")
     if cfg["timeout"]:
         L.append("    logic_block_timeout: %s" % ms(cfg["timeout"]))
     if k == "counter":
-        L += ["    count_events: %s_count" % NAME, "    starting_count: %d" % cfg["start"],
+        pv = "current_player" if cfg["where"] == "game" else "machine"
+        L += ["    starting_count: %s" % ("%s.%s" % (pv, VAR_START) if cfg.get("ph_start") else "%d" % cfg["start"]),
               "    count_interval: %d" % cfg["interval"], "    direction: %s" % ("down" if cfg["down"] else "up")]
-        if cfg["goal"] is not None:
+        if cfg.get("ph_goal"):
+            L.append("    count_complete_value: machine.%s" % VAR_GOAL)
+        elif cfg["goal"] is not None:
             L.append("    count_complete_value: %d" % cfg["goal"])
         if cfg["window"]:
             L.append("    multiple_hit_window: %s" % ms(cfg["window"]))
@@ -241,29 +384,103 @@ def block_yaml(cfg):
     else:
         L.append("    events:")
         for i in range(cfg["steps"]):
-            evs = ["%s_s%d" % (NAME, i)]
-            for j, grp in enumerate(cfg.get("shared", [])):
-                if i in grp:
-                    evs.append("%s_sh%d" % (NAME, j))
-            L.append("      - %s" % ", ".join(evs))
+            L.append("      - %s" % ", ".join(step_events(cfg, i)))
     return "\n".join(L) + "\n"
+
+
+def vars_yaml(cfg):
+    """initial values of the template variables (read when the block is created)"""
+    L = []
+    mv = []
+    if cfg.get("ph_start") and cfg["where"] != "game":
+        mv.append((VAR_START, cfg["start"]))
+    if cfg.get("ph_goal"):
+        mv.append((VAR_GOAL, cfg["goal"]))
+    if mv:
+        L.append("machine_vars:")
+        for k, v in mv:
+            L += ["  %s:" % k, "    initial_value: %d" % v, "    value_type: int", "    persist: false"]
+    if cfg.get("ph_start") and cfg["where"] == "game":
+        L += ["player_vars:", "  %s:" % VAR_START, "    initial_value: %d" % cfg["start"], "    value_type: int"]
+    return "\n".join(L) + "\n" if L else ""
 
 
 def ctl_event(act, v):
     return "%s_%s_%s" % (NAME, act, ("m%d" % -v) if v < 0 else str(v))
 
 
+class _Hooks:
+    """process-wide observation hooks (installed once): which delay callbacks of the block under test ran, in order,
+    and what random.shuffle produced inside event_advance_random"""
+    installed = False
+    dev = None
+    vm = None
+    fired = []
+    shuffles = []
+    rnd = None
+
+    @classmethod
+    def install(cls):
+        if cls.installed:
+            return
+        from mpf.core.delays import DelayManager
+        import mpf.devices.logic_blocks as lb
+        orig = DelayManager._process_delay_callback
+
+        def wrapped(self, name, callback, **kwargs):
+            mine = cls.dev is not None and getattr(callback, "__self__", None) is cls.dev
+            if not mine:
+                return orig(self, name, callback, **kwargs)
+            n0 = len(cls.shuffles)
+            entry = [cls.vm.now(), getattr(callback, "__name__", "?"), None]
+            cls.fired.append(entry)
+            try:
+                return orig(self, name, callback, **kwargs)
+            finally:
+                if entry[1] == "event_advance_random":
+                    entry[2] = cls.choice_of(cls.shuffles[n0:])
+        DelayManager._process_delay_callback = wrapped
+
+        def shuffle(x):
+            (cls.rnd or random.Random(0)).shuffle(x)
+            cls.shuffles.append(list(x))
+        lb.shuffle = shuffle
+        cls.installed = True
+
+    @staticmethod
+    def choice_of(shuffles):
+        """the step event_advance_random picked: the first open one in shuffled order (None: not called / none open)"""
+        if not shuffles:
+            return None
+        for step, state in shuffles[-1]:
+            if not state:
+                return step
+        return None
+
+
+KIND_OF_CALLBACK = {"stop_ignoring_hits": "W", "_logic_block_timeout": "T", "event_count": "D:count",
+                    "event_enable": "D:enable", "event_disable": "D:disable", "event_reset": "D:reset",
+                    "event_restart": "D:restart", "event_advance_random": "D:advr"}
+
+
 class RealBlock:
     def __init__(self, cfg):
-        from harness.common.vmachine import VMachine
+        from harness.common.vmachine import VMachine, BootError
         self.cfg = cfg
         body = block_yaml(cfg)
-        if cfg["where"] == "mode":
-            mode = "mode:\n  start_events: m1_start\n  stop_events: m1_stop\n  game_mode: false\n" + body
-            self.vm = VMachine("modes:\n  - m1\n", modes={"m1": mode})
-        else:
-            self.vm = VMachine(body)
-        from harness.common.vmachine import BootError
+        where = cfg["where"]
+
+        def build():
+            if where == "mode":
+                mode = "mode:\n  start_events: m1_start\n  stop_events: m1_stop\n  game_mode: false\n" + body
+                return VMachine("modes:\n  - m1\n" + vars_yaml(cfg), modes={"m1": mode})
+            if where == "game":
+                main = ("modes:\n  - m1\ngame:\n  balls_per_game: 9\n  max_players: 4\nswitches:\n  s_start:\n"
+                        "    number: 1\n    tags: start\n") + vars_yaml(cfg)
+                mode = "mode:\n  start_events: ball_started, m1_start\n  stop_events: m1_stop\n  priority: 200\n" + body
+                return VMachine(main, modes={"m1": mode}, game=True)
+            return VMachine(body + vars_yaml(cfg))
+        self.vm = build()
         for attempt in range(3):    # the test scaffolding has a wall-clock boot limit; a loaded host can trip it
             try:
                 self.vm.start()
@@ -271,14 +488,39 @@ class RealBlock:
             except BootError as e:
                 if "Start took more than" not in str(e) or attempt == 2:
                     raise InfraError("boot failed: %s" % e)
-                self.vm = VMachine("modes:\n  - m1\n", modes={"m1": mode}) if cfg["where"] == "mode" else VMachine(body)
+                self.vm = build()
         self.vm.align()
         self.log = []
         m = self.vm.machine
         self.dev = {"counter": m.counters, "accrual": m.accruals, "sequence": m.sequences}[cfg["kind"]][NAME]
+        _Hooks.install()
+        _Hooks.dev, _Hooks.vm = self.dev, self.vm
+        _Hooks.fired, _Hooks.shuffles = [], []
+        _Hooks.rnd = random.Random(cfg.get("shuffle_seed", 0))
+        self.sched = []
+        self.choice = None
+        self.next_player = None
         for ev, tag in (("logicblock_%s_updated" % NAME, "U"), ("logicblock_%s_hit" % NAME, "H"),
                         ("logicblock_%s_complete" % NAME, "C"), ("%s_timeout" % NAME, "T")):
             m.events.add_handler(ev, self._make(tag))
+        if where == "game":
+            def _add_ball(**kwargs):
+                m.playfield.balls += 1
+                m.playfield.available_balls += 1
+            m.playfield.add_ball = _add_ball
+            m.ball_controller.num_balls_known = 3
+            for _ in range(cfg.get("players", 1)):
+                self.vm.hit_switch("s_start", 1)
+                self.vm.hit_switch("s_start", 0)
+                self.settle()
+            self.vm.advance(TICK)
+            self.settle()
+            if m.game is None or len(m.game.player_list) != cfg.get("players", 1) or not m.modes["m1"].active:
+                raise InfraError("game with %d players did not start" % cfg.get("players", 1))
+
+    def settle(self):
+        for _ in range(8):
+            self.vm.run()
 
     def _make(self, tag):
         def handler(**kwargs):
@@ -302,21 +544,49 @@ class RealBlock:
             return s + "".join(":?%s" % k for k in sorted(kw) if k not in ("count", "hits", "remaining"))
         return tag + "".join(":?%s" % k for k in sorted(kw))
 
+    def stored(self):
+        if not self.cfg.get("persist"):
+            return ""
+        g = self.vm.machine.game
+        out = []
+        for p in range(4):
+            st = None
+            if g is not None and p < len(g.player_list) and g.player_list[p].is_player_var("%s_state" % NAME):
+                st = g.player_list[p]["%s_state" % NAME]
+            out.append("-" if st is None else "%s,%d,%d" % (self.fmt_value(st.value), 1 if st.enabled else 0,
+                                                              1 if st.completed else 0))
+        return " s=" + "/".join(out)
+
     def observe(self):
         d = self.dev
         evs = "".join(" " + self.fmt_event(t, kw) for t, kw in self.log)
         self.log = []
         if d._state is None:
-            return "unloaded |" + evs
-        return "v=%s e=%d c=%d |%s" % (self.fmt_value(d.value), 1 if d.enabled else 0, 1 if d.completed else 0, evs)
+            return "unloaded%s |%s" % (self.stored(), evs)
+        return "v=%s e=%d c=%d%s |%s" % (self.fmt_value(d.value), 1 if d.enabled else 0, 1 if d.completed else 0,
+                                        self.stored(), evs)
+
+    def set_var(self, which, v):
+        m = self.vm.machine
+        if which == "start" and self.cfg["where"] == "game":
+            m.game.player[VAR_START] = v
+        else:
+            m.variables.set_machine_var(VAR_START if which == "start" else VAR_GOAL, v)
+        self.vm.run()
 
     def op(self, op):
         """apply one op on the real machine; returns the observation line or 'crash <Type>'"""
         vm = self.vm
         name = op[0]
+        self.sched, self.choice, self.next_player = [], None, None
+        _Hooks.fired, _Hooks.shuffles = [], []
         try:
             if name == "adv":
+                t0 = vm.now()
                 vm.advance(op[1] * TICK)
+                for t, cb, choice in _Hooks.fired:
+                    off = (t - t0) / TICK
+                    self.sched.append((int(off) if off == int(off) else off, KIND_OF_CALLBACK.get(cb, "?" + cb), choice))
             elif name == "hit":
                 vm.post("%s_s%d" % (NAME, op[1]))
                 vm.run()
@@ -326,16 +596,43 @@ class RealBlock:
             elif name in ("add", "sub", "set"):
                 vm.post(ctl_event(name, op[1]))
                 vm.run()
+            elif name == "dpost":
+                vm.post("%s_%s_d" % (NAME, op[1]))
+                vm.run()
+            elif name == "setstart":
+                self.set_var("start", op[1])
+            elif name == "setgoal":
+                self.set_var("goal", op[1])
+            elif name == "advr":
+                vm.post("%s_advr" % NAME)
+                vm.run()
+                self.choice = _Hooks.choice_of(_Hooks.shuffles)
             elif name == "load":
                 vm.post("m1_start")
                 vm.run()
-                if self.cfg["where"] == "mode" and not vm.machine.modes["m1"].active:
+                if self.cfg["where"] == "game":
+                    self.settle()
+                if not vm.machine.modes["m1"].active:
                     raise InfraError("mode m1 did not start")
             elif name == "unload":
                 vm.post("m1_stop")
                 vm.run()
-                if self.cfg["where"] == "mode" and vm.machine.modes["m1"].active:
+                if self.cfg["where"] == "game":
+                    self.settle()
+                if vm.machine.modes["m1"].active:
                     raise InfraError("mode m1 did not stop")
+            elif name == "drain":
+                m = vm.machine
+                for _ in range(m.game.balls_in_play):
+                    r = vm.tc.post_relay_event_with_params("ball_drain", balls=1)
+                    m.playfield.balls -= r["balls"]
+                    m.playfield.available_balls -= r["balls"]
+                self.settle()
+                vm.advance(TICK)
+                self.settle()
+                if m.game is None or m.game.player is None or not m.modes["m1"].active:
+                    raise InfraError("no next ball after drain")
+                self.next_player = m.game.player.index
             else:
                 vm.post("%s_%s" % (NAME, name))
                 vm.run()
@@ -350,22 +647,34 @@ class RealBlock:
         return self.observe()
 
     def close(self):
+        _Hooks.dev = _Hooks.vm = None
         self.vm.stop()
 
 
 # ---------------------------------------------------------------------------------------------------------------------
 # generators
 # ---------------------------------------------------------------------------------------------------------------------
-def gen_cfg(r, where=None):
+def gen_cfg(r, where=None, flavour=None):
+    """flavour: None (mixed) | 'delay' (delayed control events) | 'tmpl' (template-valued start / goal) |
+    'steps' (shared / duplicated step events, advance_random) | 'down' (counting down through zero)"""
     kind = r.choice(["counter", "counter", "counter", "accrual", "sequence"])
+    if flavour in ("tmpl", "down"):
+        kind = "counter"
+    if flavour == "steps":
+        kind = r.choice(["accrual", "accrual", "sequence"])
     where = where or ("mode" if r.random() < 0.12 else "machine")
     cfg = {"kind": kind, "where": where, "start": 0, "interval": 1, "down": False, "goal": None,
            "reset_on_complete": r.random() < 0.6, "disable_on_complete": r.random() < 0.5,
-           "window": 0, "timeout": r.choice([0, 0, 0, 2, 3, 4, 8]), "steps": 0, "start_enabled": r.random() < 0.3}
+           "window": 0, "timeout": r.choice([0, 0, 0, 2, 3, 4, 8]), "steps": 0, "start_enabled": r.random() < 0.3,
+           "shuffle_seed": r.randrange(1000)}
     if kind == "counter":
         cfg["down"] = r.random() < 0.4
         cfg["interval"] = r.choice([1, 1, 1, 2, 3, -1, -2, 0])
         cfg["start"] = r.choice([0, 0, 1, 5, -3, 10])
+        if flavour == "down":
+            cfg["down"] = True
+            cfg["interval"] = r.choice([1, 1, 2, 3, -2])
+            cfg["start"] = r.choice([0, 1, 2, 3, -1])
         delta = -abs(cfg["interval"]) if cfg["down"] else abs(cfg["interval"])
         g = r.random()
         if g < 0.15:
@@ -376,6 +685,8 @@ def gen_cfg(r, where=None):
             cfg["goal"] = cfg["start"]            # already met at the start value
         else:
             cfg["goal"] = cfg["start"] - delta * 2 - (1 if not cfg["down"] else -1)  # behind the start: met at once
+        if flavour == "down" and cfg["goal"] is not None and r.random() < 0.6:
+            cfg["goal"] = r.choice([0, -1, -2, -3, -4])       # through zero / a negative completion value
         cfg["window"] = r.choice([0, 0, 1, 2, 3, 4])
         vals = sorted({r.choice([1, 2, 3, -1, -2, 0]) for _ in range(2)})
         cfg["controls"] = [["add", v] for v in vals] + [["sub", r.choice([1, 2, -1])]] + \
@@ -383,45 +694,94 @@ def gen_cfg(r, where=None):
                                                        (cfg["goal"] or 0) - delta})]
         if r.random() < 0.3:
             cfg["controls"] = []
+        if flavour == "tmpl" or (flavour is None and r.random() < 0.15):
+            x = r.random()
+            cfg["ph_start"] = x < 0.7
+            cfg["ph_goal"] = x > 0.4
+            if cfg["ph_goal"] and cfg["goal"] is None:
+                cfg["goal"] = cfg["start"] + 2 * delta
     else:
         cfg["steps"] = r.choice([1, 2, 3, 3, 4])
-        if kind == "sequence" and cfg["steps"] >= 2 and r.random() < 0.35:
+        p_shared = 0.8 if flavour == "steps" else 0.35
+        if cfg["steps"] >= 2 and r.random() < p_shared:
             i = r.randrange(cfg["steps"] - 1)
-            cfg["shared"] = [[i, i + 1]] if r.random() < 0.7 else [[0, cfg["steps"] - 1]]
+            cfg["shared"] = [[i, i + 1]] if r.random() < 0.6 else [[0, cfg["steps"] - 1]]
+            if cfg["steps"] >= 3 and r.random() < 0.4:
+                cfg["shared"].append(sorted(r.sample(range(cfg["steps"]), r.choice([2, 3]))))
+        if r.random() < (0.5 if flavour == "steps" else 0.15):
+            cfg["dups"] = sorted({r.randrange(cfg["steps"]) for _ in range(2)})
     if where == "machine" and cfg["timeout"]:
         cfg["start_enabled"] = False
+    if flavour == "delay" or (flavour is None and r.random() < 0.25):
+        acts = acts_of(cfg)
+        chosen = [a for a in acts if r.random() < 0.7] or [acts[0]]
+        w, t = cfg["window"], cfg["timeout"]
+        pool = [1, 2, 3, 4] + [x for x in (w, t, t - w, w + 1) if 0 < x <= 8] * 2
+        cfg["delays"] = {a: r.choice(pool) for a in chosen}
+    return cfg
+
+
+def gen_game_cfg(r):
+    cfg = gen_cfg(r, "game", r.choice([None, "tmpl", "steps", None]))
+    cfg.pop("delays", None)
+    cfg["window"] = 0
+    cfg["timeout"] = 0
+    cfg["persist"] = r.random() < 0.85
+    cfg["players"] = r.choice([1, 2, 2, 3, 3])
+    if r.random() < 0.5:                      # a completed block that stays completed on the next ball
+        cfg["reset_on_complete"] = False
     return cfg
 
 
 def gen_ops(r, cfg, n):
     kind = cfg["kind"]
     ops = []
-    loaded = cfg["where"] != "mode"
+    where = cfg["where"]
+    loaded = where != "mode"
     if not loaded:
         ops.append(["load"])
         loaded = True
-    has_enable = cfg["where"] == "mode" or not cfg["start_enabled"]
+    has_enable = where != "machine" or not cfg["start_enabled"]
     if not cfg["start_enabled"] and r.random() < 0.85:
         ops.append(["enable"])
     w, t = cfg["window"], cfg["timeout"]
-    edges = [x for x in {w, w - 1, t, t - 1, max(t - w, 0), 1} if x > 0]
+    delays = cfg.get("delays", {})
+    edges = [x for x in {w, w - 1, t, t - 1, max(t - w, 0), 1} | set(delays.values()) if x > 0]
+    delta = -abs(cfg["interval"]) if cfg["down"] else abs(cfg["interval"])
+    p_hit = 0.45 if not delays else 0.3
     while len(ops) < n:
         x = r.random()
-        if x < 0.45:
+        if x < p_hit:
             if kind == "counter":
                 ops.append(["count"])
                 if r.random() < 0.3:
                     ops.append(["count"])
-            elif kind == "sequence" and cfg.get("shared") and r.random() < 0.3:
-                ops.append(["shared", 0])
+            elif cfg.get("shared") and r.random() < 0.35:
+                ops.append(["shared", r.randrange(len(cfg["shared"]))])
+            elif kind == "accrual" and r.random() < 0.3:
+                ops.append(["advr"])
             else:
                 # mostly the step a sequence waits for / an unset accrual step, sometimes any step
                 ops.append(["hit", r.randrange(cfg["steps"])])
+        elif x < 0.45 and delays:
+            ops.append(["dpost", r.choice(sorted(delays))])
         elif x < 0.7:
-            ops.append(["adv", r.choice(edges) if r.random() < 0.8 else r.randint(1, 9)])
-        elif x < 0.78 and kind == "counter" and cfg.get("controls"):
-            c = r.choice(cfg["controls"])
-            ops.append([c[0], c[1]])
+            if where == "game":
+                ops.append(["drain"] if r.random() < 0.6 else ["hit", 0] if kind != "counter" else ["count"])
+            else:
+                ops.append(["adv", r.choice(edges) if r.random() < 0.8 else r.randint(1, 9)])
+        elif x < 0.78 and kind == "counter" and (cfg.get("controls") or cfg.get("ph_start") or cfg.get("ph_goal")):
+            y = r.random()
+            if cfg.get("ph_start") and y < 0.4:
+                ops.append(["setstart", r.choice([0, 1, 2, 5, -2, cfg["start"]])])
+                if r.random() < 0.5:
+                    ops.append(["reset"])
+            elif cfg.get("ph_goal") and y < 0.8:
+                base = cfg["start"]
+                ops.append(["setgoal", base + delta * r.choice([0, 1, 2, 3]) + r.choice([0, 0, 1, -1])])
+            elif cfg.get("controls"):
+                c = r.choice(cfg["controls"])
+                ops.append([c[0], c[1]])
         elif x < 0.84:
             # a machine-wide block that starts enabled has no enable event (only restart enables it again)
             ops.append(["enable"] if has_enable else ["restart"])
@@ -431,14 +791,16 @@ def gen_ops(r, cfg, n):
             ops.append(["reset"])
         elif x < 0.96:
             ops.append(["restart"])
-        elif cfg["where"] == "mode":
+        elif where in ("mode", "game"):
             ops.append(["unload"] if loaded else ["load"])
             loaded = not loaded
-            if not loaded and r.random() < 0.7:
+            if not loaded and where == "mode" and r.random() < 0.7:
                 ops.append(["adv", r.choice(edges)])
-                if r.random() < 0.5:
-                    ops.append(["load"])
-                    loaded = True
+            if not loaded and (where == "game" or r.random() < 0.5):
+                ops.append(["load"])
+                loaded = True
+    if where == "game" and not loaded:
+        ops.append(["load"])
     return ops
 
 
@@ -447,37 +809,96 @@ def gen_ops(r, cfg, n):
 # ---------------------------------------------------------------------------------------------------------------------
 def model_cfg_line(cfg):
     b = lambda x: "1" if x else "0"
-    return "cfg %s %d %d %s %s %s %s %d %d %d %s" % (
+    return "cfg %s %d %d %s %s %s %s %d %d %d %s %s %s" % (
         cfg["kind"], cfg["start"], cfg["interval"], b(cfg["down"]), "-" if cfg["goal"] is None else cfg["goal"],
         b(cfg["reset_on_complete"]), b(cfg["disable_on_complete"]), cfg["window"], cfg["timeout"], cfg["steps"],
-        b(cfg["start_enabled"]))
+        b(cfg["start_enabled"]), b(cfg.get("persist")), b(cfg["where"] == "machine"))
 
 
-def expand(cfg, op):
-    """a harness op as the list of model/reference ops it stands for"""
+def hits_of(cfg, op):
+    """the step hits one posted step event stands for, in handler order (sequence: higher step = higher priority
+    first; accrual: registration order)"""
     if op[0] == "shared":
-        return [["hit", k] for k in sorted(cfg["shared"][op[1]], reverse=True)]  # higher step = higher priority first
-    return [op]
+        ks = sorted(cfg["shared"][op[1]], reverse=cfg["kind"] == "sequence")
+    else:
+        ks = [op[1]]
+    out = []
+    for k in ks:
+        out += [k, k] if (op[0] == "hit" and k in cfg.get("dups", [])) else [k]
+    return out
+
+
+class Env:
+    """what the harness knows about the run so far (to translate ops): per-player start variable, current player"""
+
+    def __init__(self, cfg):
+        self.cur = 0
+        self.pstart = {}
+        self.cfg = cfg
+
+    def start_of(self, p):
+        return self.pstart.get(p, self.cfg["start"])
+
+
+def expand(cfg, op, env, sched, choice, next_player):
+    """a harness op as the list of (model line, reference op + arguments) it stands for"""
+    name = op[0]
+    ch = lambda c: "-" if c is None else str(c)
+    if name in ("hit", "shared"):
+        return [("hit %d" % k, (["hit", k], None, None)) for k in hits_of(cfg, op)]
+    if name == "adv":
+        lines = []
+        for j in range(1, op[1] + 1):
+            lines.append("clock")
+            for off, kind, c in sched:
+                if off == j:
+                    lines.append({"W": "fireW", "T": "fireT"}.get(kind) or
+                                 ("fireD advr %s" % ch(c) if kind == "D:advr" else "fireD " + kind[2:]))
+        if any(not isinstance(off, int) or not 1 <= off <= op[1] for off, _, _ in sched):
+            lines.append("off-grid-callback")
+        return [(l, None) for l in lines[:-1]] + [(lines[-1], (op, sched, None))]
+    if name == "advr":
+        return [("advr %s" % ch(choice), (op, None, choice))]
+    if name == "dpost":
+        return [("dpost %s %d" % (op[1], cfg["delays"][op[1]]), (op, None, None))]
+    if name == "setstart":
+        if cfg["where"] == "game":
+            env.pstart[env.cur] = op[1]
+        return [("setstart %d" % op[1], (op, None, None))]
+    if name == "setgoal":
+        return [("setgoal %d" % op[1], (op, None, None))]
+    if name == "drain":
+        p = next_player if next_player is not None else (env.cur + 1) % cfg.get("players", 1)
+        want_p = (env.cur + 1) % cfg.get("players", 1)          # the reference rotates by itself
+        env.cur = p
+        return [("stopmode", (["stopmode"], None, None)),
+                ("setstart %d" % env.start_of(p), (["setstart", env.start_of(want_p)], None, None)),
+                ("startmode %d" % p, (["startmode", want_p], None, None))]
+    if name == "unload":
+        return [("stopmode", (["stopmode"], None, None))]
+    if name == "load":
+        return [("startmode %d" % env.cur, (["startmode", env.cur], None, None))]
+    return [(" ".join(str(x) for x in op), (op, None, None))]
 
 
 def merge(lines):
     """several observation lines of one posted event: last state, all events"""
     if len(lines) == 1:
         return lines[0]
-    if any(l == "bad-op" or l.startswith("crash") for l in lines):
+    if any(l == "bad-op" or l.startswith("crash") or " |" not in l for l in lines):
         return " / ".join(lines)
     return lines[-1].split(" |")[0] + " |" + "".join(l.split(" |", 1)[1] for l in lines)
 
 
-def model_ask(model, cfg, op):
-    out = []
-    for o in expand(cfg, op):
-        out.append(model.ask(" ".join(str(x) for x in o)))
-    return merge(out)
-
-
-def ref_ask(ref, cfg, op):
-    return merge([ref.op(o) for o in expand(cfg, op)])
+def mask_updates(line):
+    """an accrual's `updated` events carry the value LIST by reference: when one posted event hits several steps, or
+    two delay callbacks run at one instant, the handlers see the list as it is after all of them (events are
+    dispatched later).  The property speaks about hit and completion events; the `updated` events of an accrual are
+    therefore compared by number, position and enabled flag only (the value after the op is compared anyway)."""
+    if " |" not in line:
+        return line
+    st, ev = line.split(" |", 1)
+    return st + " |" + "".join(" " + ("U:*:" + e.rsplit(":", 1)[1] if e.startswith("U:") else e) for e in ev.split())
 
 
 def classify(cfg, op, impl, want):
@@ -489,13 +910,16 @@ def classify(cfg, op, impl, want):
     si, ei = impl.split(" |", 1)
     sw, ew = want.split(" |", 1)
     evi, evw = ei.split(), ew.split()
+    sched_flags = [e for e in evw if e.startswith("!")]
+    if sched_flags:
+        return "%s:%s" % (k, sched_flags[0][1:].split(":")[0])
     for tag, nm in (("C", "complete-events"), ("H", "hit-events"), ("S", "hit-events"), ("T", "timeout-events")):
         if [e for e in evi if e.startswith(tag)] != [e for e in evw if e.startswith(tag)]:
             return "%s:%s" % (k, nm)
     if si != sw:
         di = dict(x.split("=") for x in si.split() if "=" in x)
         dw = dict(x.split("=") for x in sw.split() if "=" in x)
-        for key, nm in (("v", "value"), ("e", "enabled"), ("c", "completed")):
+        for key, nm in (("v", "value"), ("e", "enabled"), ("c", "completed"), ("s", "stored-state")):
             if di.get(key) != dw.get(key):
                 return "%s:%s" % (k, nm)
         return "%s:state" % k
@@ -505,30 +929,67 @@ def classify(cfg, op, impl, want):
 
 
 class Ledger:
-    """the value ledger of Props/C18 `counter_value`, recomputed from the events the REAL device posted"""
+    """the value ledger of Props/C18 `counter_value`, recomputed from the events the REAL device posted: the base is
+    the start template as it evaluated at the last reset, hits are the hit events since"""
 
     def __init__(self, cfg):
         self.c = cfg
         self.delta = -abs(cfg["interval"]) if cfg["down"] else abs(cfg["interval"])
+        self.start = cfg["start"]
         self.base, self.hits = cfg["start"], 0
+        self.cur = 0
+        self.saved = {}
+        self.pstart = {}
 
     def step(self, op, impl):
-        if impl.startswith("crash") or impl.startswith("unloaded"):
+        name = op[0]
+        if name == "setstart":
+            self.start = op[1]
+            self.pstart[self.cur] = op[1]
+        if impl.startswith("crash"):
             return None
         st, ev = impl.split(" |", 1)
         evs = ev.split()
-        name = op[0]
-        if name == "count":
-            self.hits += sum(1 for e in evs if e.startswith("H"))
-        elif name == "add":
+        if name in ("unload", "drain") and self.c.get("persist") and not getattr(self, "unloaded", False):
+            self.saved[self.cur] = (self.base, self.hits)
+        if name == "unload":
+            self.unloaded = True
+        if name == "drain":
+            self.cur = (self.cur + 1) % self.c.get("players", 1)
+            self.start = self.pstart.get(self.cur, self.c["start"])
+        if name in ("load", "drain"):
+            self.unloaded = False
+            if self.c.get("persist") and self.cur in self.saved:
+                self.base, self.hits = self.saved[self.cur]
+            elif evs:
+                self.base, self.hits = self.start, 0
+        if impl.startswith("unloaded"):
+            return None
+        nh = sum(1 for e in evs if e.startswith("H"))
+        if name == "add":
             self.base += op[1]
         elif name == "sub":
             self.base -= op[1]
         elif name == "set":
             self.base, self.hits = op[1], 0
-        if name in ("reset", "restart", "load") or "T" in evs or ("C" in evs and self.c["reset_on_complete"]):
-            self.base, self.hits = self.c["start"], 0
+        # a reset: the op itself, a timeout, a completion of a reset_on_complete block, a delayed reset / restart
+        # (visible as an `updated` event showing the start value right after a non-hit) - events are scanned in order
+        if name in ("reset", "restart") or (name == "load" and not self.c.get("persist")):
+            self.base, self.hits = self.start, 0
+        elif name == "adv" or nh or "C" in evs:
+            self.scan(evs)
         return self.base + self.delta * self.hits
+
+    def scan(self, evs):
+        """walk the events of one op in posting order"""
+        i = 0
+        while i < len(evs):
+            e = evs[i]
+            if e.startswith("H"):
+                self.hits += 1
+            elif e == "T" or (e == "C" and self.c["reset_on_complete"]):
+                self.base, self.hits = self.start, 0
+            i += 1
 
 
 def execute(cfg, ops, model=None, stop_at_first=True):
@@ -536,7 +997,8 @@ def execute(cfg, ops, model=None, stop_at_first=True):
     Returns (oracle_failure or None, comparisons [(op_index, impl, model)], branch flags)."""
     real = RealBlock(cfg)
     ref = RefBlock(cfg)
-    led = Ledger(cfg) if cfg["kind"] == "counter" else None
+    env = Env(cfg)
+    led = Ledger(cfg) if cfg["kind"] == "counter" and not cfg.get("delays") else None
     failure = None
     comps = []
     flags = set()
@@ -545,19 +1007,28 @@ def execute(cfg, ops, model=None, stop_at_first=True):
             a = model.ask(model_cfg_line(cfg))
             if not a.startswith("ok"):
                 raise InfraError("model rejected cfg: %r -> %r" % (cfg, a))
-        if cfg["where"] == "mode":
-            ref.op(["unload"])
+        if cfg["where"] != "machine":
+            ref.op(["unload"])          # a mode-owned block does not exist before its mode starts (model: boot flag)
+            ref.store = {}
+        if cfg["where"] == "game":
+            # the block was created when the first ball started: a mode start for player 0
+            ref.op(["startmode", 0])
             if model is not None:
-                model.ask("unload")
+                model.ask("startmode 0")
         first = real.observe()
         want0 = ref.line()
         if first.split(" |")[0] != want0.split(" |")[0]:
             failure = ("%s:initial-state" % cfg["kind"], -1, first, want0)
         for i, op in enumerate(ops):
             impl = real.op(op)
-            want = ref_ask(ref, cfg, op)
+            parts = expand(cfg, op, env, real.sched, real.choice, real.next_player)
+            multi = cfg["kind"] == "accrual"
+            want = merge([ref.op(*a) for _, a in parts if a is not None])
+            if multi:
+                impl, want = mask_updates(impl), mask_updates(want)
             if model is not None:
-                comps.append((i, impl, model_ask(model, cfg, op)))
+                mod = merge([model.ask(l) for l, _ in parts])
+                comps.append((i, impl, mask_updates(mod) if multi else mod))
             evs = want.split(" |", 1)[1].split()
             if "C" in evs:
                 flags.add("completion")
@@ -567,6 +1038,16 @@ def execute(cfg, ops, model=None, stop_at_first=True):
                 flags.add("rejected-hit")
             if want.startswith("unloaded"):
                 flags.add("unloaded")
+            if op[0] == "adv":
+                for _, kind, _ in real.sched:
+                    flags.add("delayed-call-ran" if kind.startswith("D:") else "timer-ran")
+                insts = [off for off, _, _ in real.sched]
+                if len(set(insts)) < len(insts):
+                    flags.add("same-instant-callbacks")
+            if op[0] in ("unload", "drain") and cfg.get("persist"):
+                flags.add("state-stored")
+            if op[0] in ("load", "drain") and cfg.get("persist") and " U:" in want and want.count(" U:") == 1:
+                flags.add("state-restored")
             if impl != want and failure is None:
                 failure = (classify(cfg, op, impl, want), i, impl, want)
             if led is not None and failure is None:
@@ -583,13 +1064,17 @@ def execute(cfg, ops, model=None, stop_at_first=True):
 def run_case(ctx, model, cfg, ops, sample=True):
     case = {"cfg": cfg, "ops": ops}
     failure, comps, flags = execute(cfg, ops, model)
-    ctx.evaluated(case, bool(flags & {"completion", "timeout", "rejected-hit"}), sample=sample)
+    ctx.evaluated(case, bool(flags & {"completion", "timeout", "rejected-hit", "delayed-call-ran", "state-restored"}),
+                  sample=sample)
     for op in ops:
         ctx.count("op_" + op[0])
     for f in flags:
         ctx.count("branch_" + f)
     ctx.count("kind_" + cfg["kind"])
     ctx.count("where_" + cfg["where"])
+    for key in ("delays", "ph_start", "ph_goal", "shared", "dups", "persist"):
+        if cfg.get(key):
+            ctx.count("cfg_" + key)
     for i, impl, mod in comps:
         ctx.compare(dict(case, at=i, op=ops[i]), impl, mod)
     if failure is not None:
@@ -635,6 +1120,56 @@ CORPUS = [
 ]
 
 
+CORPUS += [
+    # delayed count arrives inside the window (ignored), window end, timeout and delayed disable at one instant
+    ({"kind": "counter", "where": "machine", "start": 0, "interval": 1, "down": False, "goal": 3, "reset_on_complete": True,
+      "disable_on_complete": False, "window": 2, "timeout": 2, "steps": 0, "start_enabled": False, "controls": [],
+      "delays": {"count": 2, "disable": 2, "enable": 1}},
+     [["enable"], ["count"], ["dpost", "count"], ["dpost", "disable"], ["adv", 1], ["adv", 1], ["adv", 1], ["dpost", "enable"],
+      ["adv", 1], ["count"]]),
+    # delayed calls of a mode-owned block die with the mode; a new start does not revive them
+    ({"kind": "counter", "where": "mode", "start": 0, "interval": 1, "down": False, "goal": 2, "reset_on_complete": False,
+      "disable_on_complete": True, "window": 0, "timeout": 0, "steps": 0, "start_enabled": True, "controls": [],
+      "delays": {"count": 2, "restart": 3}},
+     [["load"], ["dpost", "count"], ["dpost", "restart"], ["unload"], ["adv", 1], ["load"], ["adv", 2], ["dpost", "count"],
+      ["count"], ["adv", 2], ["dpost", "restart"], ["adv", 3]]),
+    # delayed call pending when the block completes and is disabled: it still arrives (and is rejected / re-enables)
+    ({"kind": "counter", "where": "machine", "start": 0, "interval": 1, "down": False, "goal": 1, "reset_on_complete": True,
+      "disable_on_complete": True, "window": 0, "timeout": 0, "steps": 0, "start_enabled": False, "controls": [],
+      "delays": {"count": 1, "enable": 2}},
+     [["enable"], ["dpost", "count"], ["dpost", "count"], ["dpost", "enable"], ["count"], ["adv", 1], ["adv", 1], ["count"]]),
+    # templates: start read at reset, goal read at every hit; `hits` argument against the start as it is now
+    ({"kind": "counter", "where": "machine", "start": 5, "interval": 1, "down": False, "goal": 7, "reset_on_complete": True,
+      "disable_on_complete": False, "window": 0, "timeout": 0, "steps": 0, "start_enabled": True, "controls": [["add", 2]],
+      "ph_start": True, "ph_goal": True},
+     [["count"], ["setstart", 2], ["count"], ["reset"], ["setgoal", 3], ["count"], ["setgoal", 1], ["add", 2], ["setstart", 0],
+      ["count"]]),
+    # counting down through zero to a negative completion value
+    ({"kind": "counter", "where": "machine", "start": 1, "interval": 2, "down": True, "goal": -3, "reset_on_complete": False,
+      "disable_on_complete": False, "window": 0, "timeout": 0, "steps": 0, "start_enabled": True, "controls": [["set", 0]]},
+     [["count"], ["count"], ["count"], ["set", 0], ["reset"], ["count"], ["count"]]),
+    # accrual: event in several steps, twice in one step, advance_random to completion and beyond
+    ({"kind": "accrual", "where": "machine", "start": 0, "interval": 1, "down": False, "goal": None, "reset_on_complete": False,
+      "disable_on_complete": False, "window": 0, "timeout": 0, "steps": 3, "start_enabled": True, "shared": [[0, 2], [0, 1, 2]],
+      "dups": [1], "shuffle_seed": 3, "delays": {"advr": 1}},
+     [["shared", 0], ["hit", 1], ["reset"], ["advr"], ["dpost", "advr"], ["advr"], ["adv", 1], ["advr"], ["reset"], ["shared", 1]]),
+    # sequence: reset mid-sequence, event shared by steps 0 and 2 and listed twice in step 0
+    ({"kind": "sequence", "where": "machine", "start": 0, "interval": 1, "down": False, "goal": None, "reset_on_complete": True,
+      "disable_on_complete": False, "window": 0, "timeout": 0, "steps": 3, "start_enabled": True, "shared": [[0, 2]], "dups": [0]},
+     [["hit", 0], ["hit", 1], ["reset"], ["hit", 2], ["shared", 0], ["hit", 1], ["shared", 0], ["hit", 0]]),
+    # persist_state, two players: value / enabled / completed come back per player; a completed block stays completed
+    ({"kind": "counter", "where": "game", "start": 1, "interval": 1, "down": False, "goal": 3, "reset_on_complete": False,
+      "disable_on_complete": False, "window": 0, "timeout": 0, "steps": 0, "start_enabled": True, "controls": [],
+      "persist": True, "players": 2, "ph_start": True},
+     [["count"], ["count"], ["drain"], ["setstart", 7], ["count"], ["reset"], ["disable"], ["drain"], ["count"], ["unload"],
+      ["load"], ["drain"], ["count"], ["enable"], ["count"]]),
+    ({"kind": "accrual", "where": "game", "start": 0, "interval": 1, "down": False, "goal": None, "reset_on_complete": True,
+      "disable_on_complete": True, "window": 0, "timeout": 0, "steps": 2, "start_enabled": False, "persist": True, "players": 3},
+     [["hit", 0], ["enable"], ["hit", 1], ["drain"], ["enable"], ["hit", 0], ["drain"], ["drain"], ["hit", 0], ["drain"],
+      ["hit", 1]]),
+]
+
+
 def exhaustive(ctx, model):
     """thorough tier: every op sequence of length <= L over a small alphabet with 1- and 2-tick advances"""
     total = 0
@@ -655,6 +1190,11 @@ def exhaustive(ctx, model):
           "reset_on_complete": False, "disable_on_complete": False, "window": 0, "timeout": 2, "steps": 2,
           "start_enabled": False},
          [["hit", 0], ["hit", 1], ["enable"], ["disable"], ["adv", 1], ["adv", 2]], 4),
+        # delayed count / disable against window and timeout: every coincidence of the four deadlines
+        ({"kind": "counter", "where": "machine", "start": 0, "interval": 1, "down": False, "goal": 2,
+          "reset_on_complete": True, "disable_on_complete": False, "window": 2, "timeout": 2, "steps": 0,
+          "start_enabled": False, "controls": [], "delays": {"count": 2, "disable": 1}},
+         [["count"], ["enable"], ["dpost", "count"], ["dpost", "disable"], ["adv", 1], ["adv", 2]], 4),
     ]
     for cfg, alpha, L in spaces:
         for n in range(1, L + 1):
@@ -662,7 +1202,8 @@ def exhaustive(ctx, model):
                 run_case(ctx, model, cfg, [list(o) for o in seq], sample=False)
                 total += 1
     ctx.notes["exhaustive_subspace"] = ("all %d op sequences of length <= 4 over 6-symbol alphabets (1- and 2-tick "
-                                        "advances) for 4 fixed configurations (2 counters, sequence, accrual)" % total)
+                                        "advances) for 5 fixed configurations (3 counters - one with delayed count / disable events -, "
+                                        "sequence, accrual)" % total)
 
 
 def fine_case(ctx, r):
@@ -718,10 +1259,21 @@ def run(ctx):
             run_case(ctx, model, cfg, ops)
         if ctx.tier == "thorough" and not ctx.search:
             exhaustive(ctx, model)
-        for i in range(ctx.n(900, 8000)):
+        for i in range(ctx.n(600, 4000)):
             r = ctx.rng("case", i)
             cfg = gen_cfg(r)
             ops = gen_ops(r, cfg, r.randint(6, 28))
+            run_case(ctx, model, cfg, ops)
+        for flavour, nq, nt in (("delay", 220, 1600), ("tmpl", 90, 900), ("steps", 90, 900), ("down", 50, 500)):
+            for i in range(ctx.n(nq, nt)):
+                r = ctx.rng(flavour, i)
+                cfg = gen_cfg(r, None, flavour)
+                ops = gen_ops(r, cfg, r.randint(6, 28))
+                run_case(ctx, model, cfg, ops)
+        for i in range(ctx.n(70, 800)):
+            r = ctx.rng("game", i)
+            cfg = gen_game_cfg(r)
+            ops = gen_ops(r, cfg, r.randint(8, 24))
             run_case(ctx, model, cfg, ops)
         for i in range(ctx.n(40, 400)):
             fine_case(ctx, ctx.rng("fine", i))
